@@ -250,3 +250,24 @@ Theorem C06_wavesim_options_irrelevant : forall c caps r1 s1 r2 s2 delays actrl1
   exists ra rb, wsim_case c caps r1 s1 delays actrl1 abuf_len s extra tcap = Some ra /\
                 wsim_case c caps r2 s2 delays actrl2 abuf_len s extra tcap = Some rb /\ w_capt ra = w_capt rb.
 Proof. exact KV.Proofs.WaveSimGlue.wavesim_options_irrelevant. Qed.
+
+(** Source tie (T) for the launcher: Gen/LaunchSrc.v is regenerated from the text of class MockCuda (kyupy/__init__.py) on
+    every run by translate/gen_launch.py (the loop nest of Launcher.__getitem__.inner as actions on the coordinates that
+    cuda.grid returns; the decorator plumbing is compared with the expected syntax trees).  Whatever coordinates were left
+    by an earlier launch, the translated loop nest starts exactly the instances of the hand model, in the same order; so
+    every in-range instance runs exactly once in the code as written. *)
+From KV Require Import Model.LaunchSrcLib Gen.LaunchSrc.
+From KV Require Proofs.LaunchSrcProofs.
+Theorem C06_launcher_source_is_model :
+  (forall gx gy bx by_ st, fst (launch_src gx gy bx by_ st) = launch gx gy bx by_) /\
+  (forall X Y bx by_ st, 0 < bx -> 0 < by_ ->
+     let run := filter (fun p => Nat.ltb (fst p) X && Nat.ltb (snd p) Y)%bool (fst (launch_src (cdiv X bx) (cdiv Y by_) bx by_ st)) in
+     NoDup run /\ (forall x y, In (x, y) run <-> (x < X /\ y < Y))).
+Proof. exact KV.Proofs.LaunchSrcProofs.launcher_source_is_model. Qed.
+Theorem C06_launcher_source_nonvacuous :
+  fst (launch_src 2 1 2 3 launch_init_src) =
+    [(0,0); (0,1); (0,2); (1,0); (1,1); (1,2); (2,0); (2,1); (2,2); (3,0); (3,1); (3,2)] /\
+  filter (fun p => Nat.ltb (fst p) 3 && Nat.ltb (snd p) 3)%bool (fst (launch_src (cdiv 3 2) (cdiv 3 3) 2 3 launch_init_src)) =
+    [(0,0); (0,1); (0,2); (1,0); (1,1); (1,2); (2,0); (2,1); (2,2)].
+Proof. exact KV.Proofs.LaunchSrcProofs.launcher_source_example. Qed.
+Print Assumptions C06_launcher_source_is_model.
